@@ -68,6 +68,7 @@ pub fn check_ttl(h: &Hist, want: &[&str]) -> TtlOutcome {
     let mut ifpresent_updates = 0u64;
     let mut ifpresent_absent = 0u64;
     let mut vetoes = 0u64;
+    let mut veto_pending: Vec<u64> = Vec::new();
     // charge each value had when last seen in a quiescent snapshot
     let mut charge_of: BTreeMap<u64, i64> = BTreeMap::new();
     // obligations: expired entries that must be reclaimed
@@ -110,6 +111,15 @@ pub fn check_ttl(h: &Hist, want: &[&str]) -> TtlOutcome {
                             // the validator vetoed the replacement: value and TTL stay as they were
                             c09_keys.insert(*k);
                             vetoes += 1;
+                            // a vetoed insert still queues a New item: if the resident entry may already
+                            // have expired it can be swept first and the newcomer admitted afterwards
+                            let maybe_expired = had.as_ref().map_or(true, |e| e.exp.map_or(false, |(lo, _)| o.ret_now >= lo));
+                            if maybe_expired {
+                                m.ambiguous.insert(*k);
+                            }
+                            // the queued item may also be applied late (after the deadline): decided
+                            // when the next quiescent checkpoint tells how late
+                            veto_pending.push(*k);
                             m.dirty.insert(*k, o.ret_seq.unwrap());
                             continue;
                         }
@@ -247,6 +257,11 @@ pub fn check_ttl(h: &Hist, want: &[&str]) -> TtlOutcome {
                     continue;
                 }
                 let t = cp.now;
+                for k in veto_pending.drain(..) {
+                    if m.map.get(&k).map_or(true, |e| e.exp.map_or(false, |(lo, _)| t >= lo)) {
+                        m.ambiguous.insert(k);
+                    }
+                }
                 // move certainly-expired entries to the obligations list
                 let keys: Vec<u64> = m.map.keys().copied().collect();
                 for k in keys {
